@@ -64,6 +64,7 @@ func (m *RWMutex) grant(w *waiter) {
 		}
 		m.wHeld = true
 		m.wBy = w.g
+		w.g.hold(m, true)
 		for i, x := range m.pendW {
 			if x == w {
 				m.pendW = append(m.pendW[:i], m.pendW[i+1:]...)
@@ -104,6 +105,7 @@ func (m *RWMutex) Lock() {
 	if !m.wHeld && m.readers == 0 && len(m.pendW) == 0 {
 		m.wHeld = true
 		m.wBy = g
+		g.hold(m, true)
 		mu.Unlock()
 		return
 	}
@@ -126,6 +128,7 @@ func (m *RWMutex) RLock() {
 	if !m.wHeld && len(m.pendW) == 0 {
 		m.readers++
 		m.noteR(g, 1)
+		g.hold(m, false)
 		mu.Unlock()
 		return
 	}
@@ -142,6 +145,7 @@ func (m *RWMutex) Unlock() {
 		mu.Unlock()
 		panic("simrt: unlock of unlocked RWMutex (sync: unlock of unlocked mutex)")
 	}
+	m.wBy.release(m, true)
 	m.wHeld = false
 	m.wBy = nil
 	// admit every queued reader
@@ -149,6 +153,7 @@ func (m *RWMutex) Unlock() {
 		w.granted = true
 		m.readers++
 		m.noteR(w.g, 1)
+		w.g.hold(m, false)
 	}
 	m.waitR = nil
 	if g != nil && g.unmanaged && s != nil {
@@ -167,6 +172,7 @@ func (m *RWMutex) RUnlock() {
 	m.readers--
 	if g != nil && !g.unmanaged {
 		m.noteR(g, -1)
+		g.release(m, false)
 	}
 	if g != nil && g.unmanaged && s != nil {
 		s.tryRelease(m, false)
@@ -181,6 +187,9 @@ func (m *RWMutex) TryLock() bool {
 		g, _ := selfNoAdopt()
 		m.wHeld = true
 		m.wBy = g
+		if g != nil && !g.unmanaged {
+			g.hold(m, true)
+		}
 		return true
 	}
 	return false
@@ -193,6 +202,9 @@ func (m *RWMutex) TryRLock() bool {
 		g, _ := selfNoAdopt()
 		m.readers++
 		m.noteR(g, 1)
+		if g != nil && !g.unmanaged {
+			g.hold(m, false)
+		}
 		return true
 	}
 	return false
